@@ -71,6 +71,10 @@ type pipeCfg struct {
 	cache   string
 	filter  []uint32
 	mirror  int // >0: mirroring enabled towards 127.0.0.1:<mirror>
+	// mirrorDead: the mirror target is 255.255.255.255 - the raw socket's sendto fails (EACCES without
+	// SO_BROADCAST) and the mirror worker returns; nobody drains the mirror queues from then on
+	mirrorDead bool
+	qcap       int // capacity of every queue created with a literal capacity (0 = as written, 1000)
 }
 
 // resetPipe re-creates every package-level object of one pipeline and the options.
@@ -85,15 +89,24 @@ func resetPipe(c pipeCfg) proto {
 	o.IPFIXTplCacheFile = filepath.Join(pipeTmpGet(), "unused-ipfix.cache")
 	o.NetflowV9TplCacheFile = filepath.Join(pipeTmpGet(), "unused-v9.cache")
 	if c.mirror > 0 {
-		o.IPFIXMirrorAddr, o.IPFIXMirrorPort, o.IPFIXMirrorWorkers = "127.0.0.1", c.mirror, 1
-		o.SFlowMirrorAddr, o.SFlowMirrorPort, o.SFlowMirrorWorkers = "127.0.0.1", c.mirror, 1
+		to := "127.0.0.1"
+		if c.mirrorDead {
+			to = "255.255.255.255"
+		}
+		o.IPFIXMirrorAddr, o.IPFIXMirrorPort, o.IPFIXMirrorWorkers = to, c.mirror, 1
+		o.SFlowMirrorAddr, o.SFlowMirrorPort, o.SFlowMirrorWorkers = to, c.mirror, 1
+	}
+	venv.SetQueueCap(c.qcap)
+	mcap := 1000
+	if c.qcap > 0 {
+		mcap = c.qcap
 	}
 	opts = o
 	switch c.proto {
 	case ppIPFIX:
 		o.IPFIXEnabled, o.IPFIXWorkers, o.IPFIXPort, o.IPFIXTplCacheFile = true, c.workers, 4739, c.cache
 		ipfixUDPCh = make(chan IPFIXUDPMsg, c.udpCap)
-		ipfixMCh = make(chan IPFIXUDPMsg, 1000)
+		ipfixMCh = make(chan IPFIXUDPMsg, mcap)
 		ipfixMQCh = make(chan []byte, c.mqCap)
 		ipfixMirrorEnabled = false
 		mCache = nil
@@ -115,7 +128,7 @@ func resetPipe(c pipeCfg) proto {
 	default:
 		o.SFlowEnabled, o.SFlowWorkers, o.SFlowPort, o.SFlowTypeFilter = true, c.workers, 6343, c.filter
 		sFlowUDPCh = make(chan SFUDPMsg, c.udpCap)
-		sFlowMCh = make(chan SFUDPMsg, 1000)
+		sFlowMCh = make(chan SFUDPMsg, mcap)
 		sFlowMQCh = make(chan []byte, c.mqCap)
 		sFlowMirrorEnabled = false
 		sFlowBuffer = &sync.Pool{New: func() interface{} { return make([]byte, opts.SFlowUDPSize) }}
@@ -390,6 +403,9 @@ type pipeRun struct {
 	mirror  bool
 	paced   bool // deliver one datagram at a time, waiting for quiescence in between
 	udpCap  int  // capacity of the receive queue (0 = 1000 as in production)
+	// mirrorDead + qcap: the mirror target refuses every packet and all queues hold qcap entries
+	mirrorDead bool
+	qcap       int
 }
 
 type pipeObs struct {
@@ -436,6 +452,10 @@ func runPipe(r *pipeRun, out *pipeObs, mu *realsync.Mutex) {
 	if r.mirror {
 		cfg.mirror = mirrorListener()
 		drainMirror()
+	}
+	cfg.mirrorDead, cfg.qcap = r.mirrorDead, r.qcap
+	if r.qcap > 0 && r.udpCap == 0 {
+		cfg.udpCap = r.qcap
 	}
 	pr := resetPipe(cfg)
 	sched.GoNamed("run", pr.run)
@@ -495,20 +515,6 @@ func checkPipe(r *pipeRun, e pipeExp, o pipeObs) (string, string) {
 	if o.udp != e.udp {
 		return name + ":count:received", fmt.Sprintf("UDPCount=%d after %d datagrams were delivered", o.udp, e.udp)
 	}
-	if !r.inband {
-		if o.decoded != e.decoded {
-			return name + ":count:decoded", fmt.Sprintf("DecodedCount=%d, %d of the %d datagrams decode", o.decoded, e.decoded, e.udp)
-		}
-		if len(o.published) != len(e.payloads) {
-			return name + ":publish:number", fmt.Sprintf("%d messages published, expected %d", len(o.published), len(e.payloads))
-		}
-		for i := range e.payloads {
-			if o.published[i] != e.payloads[i] {
-				return name + ":publish:content", fmt.Sprintf("published message differs from the standalone decode of its datagram:\n got  %s\n want %s", o.published[i], e.payloads[i])
-			}
-		}
-		return "", ""
-	}
 	if r.mirror {
 		// what reached the third party: a sub-multiset of the datagrams received (mirroring starts once
 		// the dispatcher has switched it on), each byte-identical and from its exporter's address
@@ -522,6 +528,20 @@ func checkPipe(r *pipeRun, e pipeExp, o pipeObs) (string, string) {
 			}
 			want[m]--
 		}
+	}
+	if !r.inband {
+		if o.decoded != e.decoded {
+			return name + ":count:decoded", fmt.Sprintf("DecodedCount=%d, %d of the %d datagrams decode", o.decoded, e.decoded, e.udp)
+		}
+		if len(o.published) != len(e.payloads) {
+			return name + ":publish:number", fmt.Sprintf("%d messages published, expected %d", len(o.published), len(e.payloads))
+		}
+		for i := range e.payloads {
+			if o.published[i] != e.payloads[i] {
+				return name + ":publish:content", fmt.Sprintf("published message differs from the standalone decode of its datagram:\n got  %s\n want %s", o.published[i], e.payloads[i])
+			}
+		}
+		return "", ""
 	}
 	if r.mirror || !r.inband {
 		return "", ""
@@ -789,6 +809,29 @@ func c12Items(tier string) []pipeItem {
 		out = append(out, pipeItem{"paced traffic short-mid-long", pipeRun{proto: p, workers: 1, seq: seqOf(al, "dataB-short", "dataA-mid", "dataA-long", "dataA-mid"), cache: cache, paced: true}, b})
 		if p == ppIPFIX || p == ppV9 {
 			out = append(out, pipeItem{"in-band template", pipeRun{proto: p, workers: 2, seq: seqOf(al, "inband-tpl", "inband-data", "dataA-mid"), cache: cache, inband: true}, b})
+		}
+	}
+	return out
+}
+
+// C01 (concurrent part): "never terminates the process" with the collector's real concurrency - two
+// workers per protocol on well-formed and malformed datagrams of two exporters, templates loaded from a
+// cache file (entries older than "now") and announced in-band.
+func c01Items(tier string) []pipeItem {
+	b := 1
+	if tier == "thorough" {
+		b = 2
+	}
+	var out []pipeItem
+	for p := 0; p < 4; p++ {
+		al := alphabet(p)
+		cache := ""
+		if p == ppIPFIX || p == ppV9 {
+			cache = preloadCache(p == ppV9)
+		}
+		out = append(out, pipeItem{"two workers, good and malformed", pipeRun{proto: p, workers: 2, seq: seqOf(al, "dataA-mid", "truncated", "dataA-long", "wrong-version"), cache: cache}, b})
+		if p == ppIPFIX || p == ppV9 {
+			out = append(out, pipeItem{"two workers, cached templates, unknown template, in-band template", pipeRun{proto: p, workers: 2, seq: seqOf(al, "dataA-mid", "dataA-long", "unknown-tpl", "inband-tpl", "inband-data"), cache: cache, inband: true}, b})
 		}
 	}
 	return out
@@ -1159,6 +1202,9 @@ func c16Items(tier string) []pipeItem {
 		for _, w := range []int{1, 2} {
 			out = append(out, pipeItem{"mirroring on", pipeRun{proto: p, workers: w, seq: seqOf(al, "dataA-long", "dataB-short", "dataA-mid"), cache: cache, mirror: true}, b})
 		}
+		// the mirror target refuses every packet (the mirror worker gives up) and every queue holds ONE entry:
+		// after a few datagrams the mirror queues are full for good - decoding must go on regardless
+		out = append(out, pipeItem{"mirror dead, queues of one entry", pipeRun{proto: p, workers: 1, seq: seqOf(al, "dataA-mid", "dataB-short", "dataA-mid", "dataB-short", "dataA-mid", "dataB-short", "dataA-long"), cache: cache, mirror: true, mirrorDead: true, qcap: 1, paced: true}, b})
 		out = append(out, pipeItem{"mirroring on, paced traffic short-mid-long", pipeRun{proto: p, workers: 1, seq: seqOf(al, "dataB-short", "dataA-mid", "dataA-long", "dataA-mid"), cache: cache, mirror: true, paced: true}, b})
 	}
 	return out
@@ -1170,6 +1216,7 @@ var pipeSpaces = map[string]func(string) mck.Space{
 	"pipe.c15locks": c15LocksSpace,
 	"pipe.c12":      pipeSpace(c12Items, 2),
 	"pipe.c08":      pipeSpace(c08Items, 4),
+	"pipe.c01":      pipeSpace(c01Items, 2),
 	"pipe.c13":      pipeSpace(c13Items, 1),
 }
 
